@@ -4,11 +4,13 @@ import json, os, shutil, subprocess, sys
 VERIF = os.path.dirname(os.path.dirname(os.path.abspath(__file__)))
 prop, letter, what, needs = sys.argv[1:5]
 also = sys.argv[5].split(',') if len(sys.argv) > 5 and sys.argv[5] else []
-sid = f'{prop}-{letter}'
+src = os.environ.get('SEEDDIR', '/tmp/seed')
+out_letter = os.environ.get('OUT', letter)
+sid = f'{prop}-{out_letter}'
 d = os.path.join(VERIF, 'seeded', sid)
 os.makedirs(d, exist_ok=True)
-shutil.copy(f'/tmp/seed/{prop}/{letter}.diff', os.path.join(d, 'patch.diff'))
-shutil.copy(f'/tmp/seed/{prop}/demo_{letter}.py', os.path.join(d, 'demo.py'))
+shutil.copy(f'{src}/{prop}/{letter}.diff', os.path.join(d, 'patch.diff'))
+shutil.copy(f'{src}/{prop}/demo_{letter}.py', os.path.join(d, 'demo.py'))
 p = subprocess.run(['/venv/bin/python', os.path.join(VERIF, 'tools', 'seedtest.py'), '--rig', os.environ.get('RIG', '9'), '--patch', os.path.join(d, 'patch.diff'),
                     '--demo', os.path.join(d, 'demo.py'), '--props', prop, '--suite', '1'], stdout=subprocess.PIPE, stderr=subprocess.STDOUT, text=True)
 res = json.loads(p.stdout[p.stdout.index('{'):])
